@@ -11,10 +11,10 @@
 // every form is verified to return exactly that value.
 // Divisor != 0 is part of the operator precondition (`NonZero` is a plain wrapper in the verified crate, its invariant is
 // stated where it is used); the forms taking a bare `Uint` divisor panic exactly for 0 (C11).
-// Assigning forms (`/=`, `%=`) and the `Wrapping<..>` forms: not covered (tools/gen.py R10 breaks `&mut self`).
+// Not covered: `%=` by `NonZero<Limb>` (goes through `From<Limb> for Uint`), the `Wrapping<..>` forms.
 use vstd::prelude::*;
 use vstd::arithmetic::div_mod::*;
-use core::ops::{Div, Rem};
+use core::ops::{Div, DivAssign, Rem, RemAssign};
 use crate::speclib::*;
 use crate::l0_prim::*;
 use crate::l1_choice::*;
@@ -30,6 +30,22 @@ use crate::l7_traits::*;
 use crate::l7_traits_uint::*;
 use crate::l7_traits_int::*;
 verus! {
+
+/// the truncating remainder n - trunc_q(n, d) * d is in [MIN, MAX] whenever n is
+proof fn lemma_rem_in_range(n: int, d: int, k: nat)
+    requires k >= 1, d != 0, in_range(n, k)
+    ensures in_range(n - trunc_q(n, d) * d, k)
+{
+    let na = abs_i(n); let da = abs_i(d);
+    lemma_fundamental_div_mod(na, da);
+    lemma_mod_bound(na, da);
+    let q = na / da; let r = na % da;
+    assert(q * da + r == na) by (nonlinear_arith) requires na == da * q + r;
+    assert(q >= 0) by (nonlinear_arith) requires q * da + r == na, 0 <= r < da, na >= 0, da > 0;
+    lemma_trunc(n, d, q, r);
+    assert(r <= na) by (nonlinear_arith) requires q * da + r == na, q >= 0, da > 0;
+    lemma_half(k);
+}
 
 // ---- Uint / NonZero<Limb>, Uint % NonZero<Limb>
 
@@ -255,6 +271,92 @@ impl<const LIMBS: usize> vstd::std_specs::ops::RemSpecImpl<NonZero<Uint<LIMBS>>>
     open spec fn obeys_rem_spec() -> bool { true }
     open spec fn rem_req(self, rhs: NonZero<Uint<LIMBS>>) -> bool { 1 <= LIMBS < 0x400_0000 && rhs.0.v() != 0 }
     open spec fn rem_spec(self, rhs: NonZero<Uint<LIMBS>>) -> Int<LIMBS> { int_of::<LIMBS>(self.iv() - trunc_q(self.iv(), rhs.0.v()) * rhs.0.v()) }
+}
+
+// ---- assigning forms
+
+impl<'a, const LIMBS: usize> vstd::std_specs::ops::DivAssignSpecImpl<&'a NonZero<Limb>> for Uint<LIMBS> {
+    open spec fn obeys_div_assign_spec() -> bool { false }
+    open spec fn div_assign_req(&self, rhs: &'a NonZero<Limb>) -> bool { LIMBS >= 1 && (*rhs).0.0 != 0 }
+    open spec fn div_assign_spec(&self, rhs: &'a NonZero<Limb>) -> &Self { self }
+}
+
+impl<const LIMBS: usize> vstd::std_specs::ops::DivAssignSpecImpl<NonZero<Limb>> for Uint<LIMBS> {
+    open spec fn obeys_div_assign_spec() -> bool { false }
+    open spec fn div_assign_req(&self, rhs: NonZero<Limb>) -> bool { LIMBS >= 1 && rhs.0.0 != 0 }
+    open spec fn div_assign_spec(&self, rhs: NonZero<Limb>) -> &Self { self }
+}
+
+impl<'a, const LIMBS: usize> vstd::std_specs::ops::DivAssignSpecImpl<&'a NonZero<Uint<LIMBS>>> for Uint<LIMBS> {
+    open spec fn obeys_div_assign_spec() -> bool { false }
+    open spec fn div_assign_req(&self, rhs: &'a NonZero<Uint<LIMBS>>) -> bool { 1 <= LIMBS < 0x400_0000 && (*rhs).0.v() != 0 }
+    open spec fn div_assign_spec(&self, rhs: &'a NonZero<Uint<LIMBS>>) -> &Self { self }
+}
+
+impl<const LIMBS: usize> vstd::std_specs::ops::DivAssignSpecImpl<NonZero<Uint<LIMBS>>> for Uint<LIMBS> {
+    open spec fn obeys_div_assign_spec() -> bool { false }
+    open spec fn div_assign_req(&self, rhs: NonZero<Uint<LIMBS>>) -> bool { 1 <= LIMBS < 0x400_0000 && rhs.0.v() != 0 }
+    open spec fn div_assign_spec(&self, rhs: NonZero<Uint<LIMBS>>) -> &Self { self }
+}
+
+impl<'a, const LIMBS: usize> vstd::std_specs::ops::RemAssignSpecImpl<&'a NonZero<Uint<LIMBS>>> for Uint<LIMBS> {
+    open spec fn obeys_rem_assign_spec() -> bool { false }
+    open spec fn rem_assign_req(&self, rhs: &'a NonZero<Uint<LIMBS>>) -> bool { 1 <= LIMBS < 0x400_0000 && (*rhs).0.v() != 0 }
+    open spec fn rem_assign_spec(&self, rhs: &'a NonZero<Uint<LIMBS>>) -> &Self { self }
+}
+
+impl<const LIMBS: usize> vstd::std_specs::ops::RemAssignSpecImpl<NonZero<Uint<LIMBS>>> for Uint<LIMBS> {
+    open spec fn obeys_rem_assign_spec() -> bool { false }
+    open spec fn rem_assign_req(&self, rhs: NonZero<Uint<LIMBS>>) -> bool { 1 <= LIMBS < 0x400_0000 && rhs.0.v() != 0 }
+    open spec fn rem_assign_spec(&self, rhs: NonZero<Uint<LIMBS>>) -> &Self { self }
+}
+
+impl<'a, const LIMBS: usize> vstd::std_specs::ops::DivAssignSpecImpl<&'a NonZero<Int<LIMBS>>> for Int<LIMBS> {
+    open spec fn obeys_div_assign_spec() -> bool { false }
+    open spec fn div_assign_req(&self, rhs: &'a NonZero<Int<LIMBS>>) -> bool { 1 <= LIMBS < 0x400_0000 && (*rhs).0.iv() != 0 && !(self.iv() == -ih(LIMBS as nat) && (*rhs).0.iv() == -1) }
+    open spec fn div_assign_spec(&self, rhs: &'a NonZero<Int<LIMBS>>) -> &Self { self }
+}
+
+impl<const LIMBS: usize> vstd::std_specs::ops::DivAssignSpecImpl<NonZero<Int<LIMBS>>> for Int<LIMBS> {
+    open spec fn obeys_div_assign_spec() -> bool { false }
+    open spec fn div_assign_req(&self, rhs: NonZero<Int<LIMBS>>) -> bool { 1 <= LIMBS < 0x400_0000 && rhs.0.iv() != 0 && !(self.iv() == -ih(LIMBS as nat) && rhs.0.iv() == -1) }
+    open spec fn div_assign_spec(&self, rhs: NonZero<Int<LIMBS>>) -> &Self { self }
+}
+
+impl<'a, const LIMBS: usize> vstd::std_specs::ops::RemAssignSpecImpl<&'a NonZero<Int<LIMBS>>> for Int<LIMBS> {
+    open spec fn obeys_rem_assign_spec() -> bool { false }
+    open spec fn rem_assign_req(&self, rhs: &'a NonZero<Int<LIMBS>>) -> bool { 1 <= LIMBS < 0x400_0000 && (*rhs).0.iv() != 0 }
+    open spec fn rem_assign_spec(&self, rhs: &'a NonZero<Int<LIMBS>>) -> &Self { self }
+}
+
+impl<const LIMBS: usize> vstd::std_specs::ops::RemAssignSpecImpl<NonZero<Int<LIMBS>>> for Int<LIMBS> {
+    open spec fn obeys_rem_assign_spec() -> bool { false }
+    open spec fn rem_assign_req(&self, rhs: NonZero<Int<LIMBS>>) -> bool { 1 <= LIMBS < 0x400_0000 && rhs.0.iv() != 0 }
+    open spec fn rem_assign_spec(&self, rhs: NonZero<Int<LIMBS>>) -> &Self { self }
+}
+
+impl<'a, const LIMBS: usize> vstd::std_specs::ops::DivAssignSpecImpl<&'a NonZero<Uint<LIMBS>>> for Int<LIMBS> {
+    open spec fn obeys_div_assign_spec() -> bool { false }
+    open spec fn div_assign_req(&self, rhs: &'a NonZero<Uint<LIMBS>>) -> bool { 1 <= LIMBS < 0x400_0000 && (*rhs).0.v() != 0 }
+    open spec fn div_assign_spec(&self, rhs: &'a NonZero<Uint<LIMBS>>) -> &Self { self }
+}
+
+impl<const LIMBS: usize> vstd::std_specs::ops::DivAssignSpecImpl<NonZero<Uint<LIMBS>>> for Int<LIMBS> {
+    open spec fn obeys_div_assign_spec() -> bool { false }
+    open spec fn div_assign_req(&self, rhs: NonZero<Uint<LIMBS>>) -> bool { 1 <= LIMBS < 0x400_0000 && rhs.0.v() != 0 }
+    open spec fn div_assign_spec(&self, rhs: NonZero<Uint<LIMBS>>) -> &Self { self }
+}
+
+impl<'a, const LIMBS: usize> vstd::std_specs::ops::RemAssignSpecImpl<&'a NonZero<Uint<LIMBS>>> for Int<LIMBS> {
+    open spec fn obeys_rem_assign_spec() -> bool { false }
+    open spec fn rem_assign_req(&self, rhs: &'a NonZero<Uint<LIMBS>>) -> bool { 1 <= LIMBS < 0x400_0000 && (*rhs).0.v() != 0 }
+    open spec fn rem_assign_spec(&self, rhs: &'a NonZero<Uint<LIMBS>>) -> &Self { self }
+}
+
+impl<const LIMBS: usize> vstd::std_specs::ops::RemAssignSpecImpl<NonZero<Uint<LIMBS>>> for Int<LIMBS> {
+    open spec fn obeys_rem_assign_spec() -> bool { false }
+    open spec fn rem_assign_req(&self, rhs: NonZero<Uint<LIMBS>>) -> bool { 1 <= LIMBS < 0x400_0000 && rhs.0.v() != 0 }
+    open spec fn rem_assign_spec(&self, rhs: NonZero<Uint<LIMBS>>) -> &Self { self }
 }
 
 //@@ fn src/uint/div.rs | impl<const LIMBS: usize> Div<&NonZero<Limb>> for &Uint<LIMBS> | div | body | props C02 C11 C15
@@ -499,6 +601,9 @@ fn div(self, rhs: Uint<LIMBS>) -> (ret__: Self::Output)
 impl<const LIMBS: usize> Div<Uint<LIMBS>> for Uint<LIMBS> {
 //@+
     type Output = Uint<LIMBS>;
+    // Verus erases `&`: `&self / rhs` is resolved at VIR level to this very impl and reported as recursion; the /repo code is
+    // not recursive (it calls the `&Uint` form)
+    #[verifier::exec_allows_no_decreases_clause]
 //@-
 fn div(self, rhs: Uint<LIMBS>) -> (ret__: Self::Output)
 //@+
@@ -526,6 +631,9 @@ impl<const LIMBS: usize> Rem<Uint<LIMBS>> for Uint<LIMBS> {
 //@+
     type Output = Uint<LIMBS>;
     // contract (vstd `RemSpecImpl` above): requires 1 <= LIMBS < 0x400_0000 && rhs.v() != 0; ensures ret__ == uint_of::<LIMBS>(self.v() % rhs.v())
+    // Verus erases `&`: `&self / rhs` is resolved at VIR level to this very impl and reported as recursion; the /repo code is
+    // not recursive (it calls the `&Uint` form)
+    #[verifier::exec_allows_no_decreases_clause]
 //@-
 fn rem(self, rhs: Uint<LIMBS>) -> (ret__: Self::Output)
 {
@@ -746,6 +854,171 @@ fn rem(self, rhs: NonZero<Uint<LIMBS>>) -> (ret__: Self::Output)
         lemma_val_bound(u.0.limbs@, LIMBS as nat); lemma_iv_bounds(u.0.v(), LIMBS as nat); lemma_int_of::<LIMBS>(u.iv()); lemma_int_eq(u, int_of::<LIMBS>(u.iv())); }
 //@-
         Self::rem_uint(&self, &rhs)
+    }
+}
+//@@ end
+//@@ fn src/uint/div.rs | impl<const LIMBS: usize> DivAssign<&NonZero<Limb>> for Uint<LIMBS> | div_assign | body | props C02 C11 C15
+impl<const LIMBS: usize> DivAssign<&NonZero<Limb>> for Uint<LIMBS> {
+fn div_assign(&mut self, rhs: &NonZero<Limb>)
+//@+
+    ensures final(self).v() == old(self).v() / ((*rhs).0.0 as int)
+//@-
+{
+        *self /= *rhs;
+    }
+}
+//@@ end
+//@@ fn src/uint/div.rs | impl<const LIMBS: usize> DivAssign<NonZero<Limb>> for Uint<LIMBS> | div_assign | body | props C02 C11 C15
+impl<const LIMBS: usize> DivAssign<NonZero<Limb>> for Uint<LIMBS> {
+fn div_assign(&mut self, rhs: NonZero<Limb>)
+//@+
+    ensures final(self).v() == old(self).v() / (rhs.0.0 as int)
+//@-
+{
+        *self = *self / rhs;
+    }
+}
+//@@ end
+//@@ fn src/uint/div.rs | impl<const LIMBS: usize> DivAssign<&NonZero<Uint<LIMBS>>> for Uint<LIMBS> | div_assign | body | props C02 C11 C15
+impl<const LIMBS: usize> DivAssign<&NonZero<Uint<LIMBS>>> for Uint<LIMBS> {
+fn div_assign(&mut self, rhs: &NonZero<Uint<LIMBS>>)
+//@+
+    ensures final(self).v() == old(self).v() / (*rhs).0.v()
+//@-
+{
+        *self /= *rhs
+    }
+}
+//@@ end
+//@@ fn src/uint/div.rs | impl<const LIMBS: usize> DivAssign<NonZero<Uint<LIMBS>>> for Uint<LIMBS> | div_assign | body | props C02 C11 C15
+impl<const LIMBS: usize> DivAssign<NonZero<Uint<LIMBS>>> for Uint<LIMBS> {
+fn div_assign(&mut self, rhs: NonZero<Uint<LIMBS>>)
+//@+
+    ensures final(self).v() == old(self).v() / rhs.0.v()
+//@-
+{
+        *self = *self / rhs;
+    }
+}
+//@@ end
+//@@ fn src/uint/div.rs | impl<const LIMBS: usize> RemAssign<&NonZero<Uint<LIMBS>>> for Uint<LIMBS> | rem_assign | body | props C02 C11 C15
+impl<const LIMBS: usize> RemAssign<&NonZero<Uint<LIMBS>>> for Uint<LIMBS> {
+fn rem_assign(&mut self, rhs: &NonZero<Uint<LIMBS>>)
+//@+
+    ensures final(self).v() == old(self).v() % (*rhs).0.v()
+//@-
+{
+        *self %= *rhs
+    }
+}
+//@@ end
+//@@ fn src/uint/div.rs | impl<const LIMBS: usize> RemAssign<NonZero<Uint<LIMBS>>> for Uint<LIMBS> | rem_assign | body | props C02 C11 C15
+impl<const LIMBS: usize> RemAssign<NonZero<Uint<LIMBS>>> for Uint<LIMBS> {
+fn rem_assign(&mut self, rhs: NonZero<Uint<LIMBS>>)
+//@+
+    ensures final(self).v() == old(self).v() % rhs.0.v()
+//@-
+{
+//@+
+    proof { lemma_val_bound(rhs.0.limbs@, LIMBS as nat); lemma_mod_bound(old(self).v(), rhs.0.v()); lemma_uint_of::<LIMBS>(old(self).v() % rhs.0.v()); }
+//@-
+        *self = *self % rhs;
+    }
+}
+//@@ end
+//@@ fn src/int/div.rs | impl<const LIMBS: usize> DivAssign<&NonZero<Int<LIMBS>>> for Int<LIMBS> | div_assign | body | props C14 C11 C15
+impl<const LIMBS: usize> DivAssign<&NonZero<Int<LIMBS>>> for Int<LIMBS> {
+fn div_assign(&mut self, rhs: &NonZero<Int<LIMBS>>)
+//@+
+    ensures final(self).iv() == trunc_q(old(self).iv(), (*rhs).0.iv())
+//@-
+{
+        *self /= *rhs
+    }
+}
+//@@ end
+//@@ fn src/int/div.rs | impl<const LIMBS: usize> DivAssign<NonZero<Int<LIMBS>>> for Int<LIMBS> | div_assign | body | props C14 C11 C15
+impl<const LIMBS: usize> DivAssign<NonZero<Int<LIMBS>>> for Int<LIMBS> {
+fn div_assign(&mut self, rhs: NonZero<Int<LIMBS>>)
+//@+
+    ensures final(self).iv() == trunc_q(old(self).iv(), rhs.0.iv())
+//@-
+{
+        *self = (*self / rhs).expect("cannot represent positive equivalent of Int::MIN as int");
+    }
+}
+//@@ end
+//@@ fn src/int/div.rs | impl<const LIMBS: usize> RemAssign<&NonZero<Int<LIMBS>>> for Int<LIMBS> | rem_assign | body | props C14 C11 C15
+impl<const LIMBS: usize> RemAssign<&NonZero<Int<LIMBS>>> for Int<LIMBS> {
+fn rem_assign(&mut self, rhs: &NonZero<Int<LIMBS>>)
+//@+
+    ensures final(self).iv() == old(self).iv() - trunc_q(old(self).iv(), (*rhs).0.iv()) * (*rhs).0.iv()
+//@-
+{
+        *self %= *rhs
+    }
+}
+//@@ end
+//@@ fn src/int/div.rs | impl<const LIMBS: usize> RemAssign<NonZero<Int<LIMBS>>> for Int<LIMBS> | rem_assign | body | props C14 C11 C15
+impl<const LIMBS: usize> RemAssign<NonZero<Int<LIMBS>>> for Int<LIMBS> {
+fn rem_assign(&mut self, rhs: NonZero<Int<LIMBS>>)
+//@+
+    ensures final(self).iv() == old(self).iv() - trunc_q(old(self).iv(), rhs.0.iv()) * rhs.0.iv()
+//@-
+{
+//@+
+    proof { let n = old(self).iv(); let d = rhs.0.iv(); lemma_val_bound(old(self).0.limbs@, LIMBS as nat); lemma_val_bound(rhs.0.0.limbs@, LIMBS as nat);
+        lemma_iv_bounds(old(self).0.v(), LIMBS as nat); lemma_iv_bounds(rhs.0.0.v(), LIMBS as nat); lemma_rem_in_range(n, d, LIMBS as nat); lemma_int_of::<LIMBS>(n - trunc_q(n, d) * d); }
+//@-
+        *self = *self % rhs;
+    }
+}
+//@@ end
+//@@ fn src/int/div_uint.rs | impl<const LIMBS: usize> DivAssign<&NonZero<Uint<LIMBS>>> for Int<LIMBS> | div_assign | body | props C14 C11 C15
+impl<const LIMBS: usize> DivAssign<&NonZero<Uint<LIMBS>>> for Int<LIMBS> {
+fn div_assign(&mut self, rhs: &NonZero<Uint<LIMBS>>)
+//@+
+    ensures final(self).iv() == trunc_q(old(self).iv(), (*rhs).0.v())
+//@-
+{
+        *self /= *rhs
+    }
+}
+//@@ end
+//@@ fn src/int/div_uint.rs | impl<const LIMBS: usize> DivAssign<NonZero<Uint<LIMBS>>> for Int<LIMBS> | div_assign | body | props C14 C11 C15
+impl<const LIMBS: usize> DivAssign<NonZero<Uint<LIMBS>>> for Int<LIMBS> {
+fn div_assign(&mut self, rhs: NonZero<Uint<LIMBS>>)
+//@+
+    ensures final(self).iv() == trunc_q(old(self).iv(), rhs.0.v())
+//@-
+{
+        *self = *self / rhs;
+    }
+}
+//@@ end
+//@@ fn src/int/div_uint.rs | impl<const LIMBS: usize> RemAssign<&NonZero<Uint<LIMBS>>> for Int<LIMBS> | rem_assign | body | props C14 C11 C15
+impl<const LIMBS: usize> RemAssign<&NonZero<Uint<LIMBS>>> for Int<LIMBS> {
+fn rem_assign(&mut self, rhs: &NonZero<Uint<LIMBS>>)
+//@+
+    ensures final(self).iv() == old(self).iv() - trunc_q(old(self).iv(), (*rhs).0.v()) * (*rhs).0.v()
+//@-
+{
+        *self %= *rhs
+    }
+}
+//@@ end
+//@@ fn src/int/div_uint.rs | impl<const LIMBS: usize> RemAssign<NonZero<Uint<LIMBS>>> for Int<LIMBS> | rem_assign | body | props C14 C11 C15
+impl<const LIMBS: usize> RemAssign<NonZero<Uint<LIMBS>>> for Int<LIMBS> {
+fn rem_assign(&mut self, rhs: NonZero<Uint<LIMBS>>)
+//@+
+    ensures final(self).iv() == old(self).iv() - trunc_q(old(self).iv(), rhs.0.v()) * rhs.0.v()
+//@-
+{
+//@+
+    proof { let n = old(self).iv(); let d = rhs.0.v(); lemma_val_bound(old(self).0.limbs@, LIMBS as nat); lemma_val_bound(rhs.0.limbs@, LIMBS as nat);
+        lemma_iv_bounds(old(self).0.v(), LIMBS as nat); lemma_rem_in_range(n, d, LIMBS as nat); lemma_int_of::<LIMBS>(n - trunc_q(n, d) * d); }
+//@-
+        *self = *self % rhs;
     }
 }
 //@@ end
